@@ -38,7 +38,8 @@ REQUIRED_MONITORS = ["only_documented_tokens_change", "float_size_line", "builds
 REQUIRED_BUCKETS = {"quick": ["a:float32", "a:float64", "a:longdouble", "b:fragment", "c:float32", "c:longdouble",
                               "d:spelling", "c:dispersity-with-cutoff", "c:magnetic-2d", "switch:single-precision-libraries-not-allowed", "system-build:float32", "system-build:float64", "system-build:longdouble", "frag:adjacent-double", "frag:string", "frag:hexfloat", "frag:suffixed",
                               "frag:int-promotion", "frag:exponent-identifier", "frag:multiline-comment",
-                              "c:q-exactly-zero", "c:q-exactly-on-particle-axes", "composite:with-python-component"]}
+                              "c:q-exactly-zero", "c:q-exactly-on-particle-axes", "composite:with-python-component",
+                              "shipped:single!", "shipped:quad!", "shipped:double!"]}
 REQUIRED_BUCKETS["thorough"] = REQUIRED_BUCKETS["quick"]
 
 FUNCS = set("sin cos tan asin acos atan sinh cosh tanh asinh acosh atanh atan2 erf erfc tgamma exp exp2 exp10 expm1 "
@@ -284,6 +285,8 @@ def gen_cases(tier, seed):
         cases.append({"id": "system/%s-%s" % (m, dd), "kind": "system", "model": m, "dtype": dd, "group": "sys-" + m, "cost": 3})
     for m, sp in (("sphere", "single!"), ("cylinder", "single"), ("sphere@hardsphere", "float32")):
         cases.append({"id": "noflag/%s-%s" % (m, sp), "kind": "noflag", "model": m, "spelling": sp, "group": "nf-" + m, "cost": 3})
+    for m, sp in (("sphere", "single!"), ("cylinder", "quad!"), ("sphere", "double!"), ("ellipsoid", "single")):
+        cases.append({"id": "shipped/%s-%s" % (m, sp), "kind": "shipped", "model": m, "spelling": sp, "group": "sh-" + m + sp, "cost": 3})
     for e in COMPOSITES:
         cases.append({"id": "composite/" + e, "kind": "composite", "expr": e, "group": "comp-" + e, "cost": 4})
     return cases
@@ -560,6 +563,43 @@ def run_noflag(case, rec):
     rec.set_shape(("noflag", name, case["spelling"]), True)
 
 
+def run_shipped(case, rec):
+    """A model built in the requested precision and shipped to another place (pickled, as fit workers receive it;
+    copied) is still a model of that precision and returns the same values."""
+    import subprocess, json, tempfile
+    name, spelling = case["model"], case["spelling"]
+    prog = (
+        "import json, pickle, copy, numpy as np\n"
+        "from sasmodels import core, direct_model\n"
+        "q = [np.array([0.011, 0.043, 0.17])]\n"
+        "m = core.load_model(%r, dtype=%r, platform='dll')\n"
+        "I = direct_model.call_kernel(m.make_kernel(q), {})\n"
+        "out = {'dtype': str(np.dtype(m.dtype)), 'I': [float(x) for x in I]}\n"
+        "for how, m2 in (('pickle', pickle.loads(pickle.dumps(m))), ('deepcopy', copy.deepcopy(m))):\n"
+        "    I2 = direct_model.call_kernel(m2.make_kernel(q), {})\n"
+        "    out[how] = {'dtype': str(np.dtype(m2.dtype)) if getattr(m2, 'dtype', None) is not None else None,"
+        " 'result_dtype': str(np.asarray(I2).dtype), 'I': [float(x) for x in I2]}\n"
+        "print('RTMOUT ' + json.dumps(out))\n" % (name, spelling))
+    env = dict(os.environ, SAS_DLL_PATH=os.path.join(os.environ.get("RTM_SCRATCH", tempfile.gettempdir()), "shipped-dll"))
+    r = subprocess.run([core.PY, "-c", prog], capture_output=True, text=True, timeout=600, env=env)
+    out = None
+    for line in r.stdout.splitlines():
+        if line.startswith("RTMOUT "):
+            out = json.loads(line[7:])
+    rec.check("process_survives", r.returncode == 0 and out is not None,
+              {"model": name, "spelling": spelling, "case": "model pickled / copied after building", "exit": r.returncode,
+               "stderr": r.stderr[-400:]}, key="C15/shipped-model-loses-precision")
+    if out is not None:
+        for how in ("pickle", "deepcopy"):
+            o = out[how]
+            ok = o["I"] == out["I"] and o["dtype"] == out["dtype"]
+            rec.check("shipped_model_keeps_precision", ok,
+                      None if ok else {"model": name, "spelling": spelling, "how": how, "built": {"dtype": out["dtype"], "I": out["I"]},
+                                       "shipped": o}, key="C15/shipped-model-loses-precision")
+    rec.bucket("shipped:" + spelling)
+    rec.set_shape(("shipped", name, spelling), True)
+
+
 def run_system(case, rec):
     """The distribution path (core.precompile_dlls -> make_dll(system=True)): the C text handed to the compiler is the
     converted text, and the library evaluates like the ordinary build of that precision."""
@@ -618,6 +658,8 @@ def run_case(case, rec):
         return run_system(case, rec)
     if case["kind"] == "noflag":
         return run_noflag(case, rec)
+    if case["kind"] == "shipped":
+        return run_shipped(case, rec)
     {"src": run_src, "frag": run_frag, "build": run_build, "spell": run_spell, "composite": run_composite}[case["kind"]](case, rec)
 
 
